@@ -90,10 +90,10 @@ claim('C11', 'Every raw board (13^64 cell assignments x side x rights x e.p. mar
       'the validity conditions hold; every error variant is truthful; the result equals the documented normalisation of the input; derived sets equal '
       'a rebuild; the stored hash is the from-scratch hash of the normalised board; validating the result again changes nothing.', TB + S12N, 'DESIGN.md C11')
 claim('C12', 'Totality by solver for every well-formed UTF-8 string up to N bytes per entry point (Coord 4, Color 3, Cell 3, CastlingRights 6, UCI 6, '
-      'SAN 5 quick / 7 thorough with S4), with the accepted set characterised byte-wise for all but SAN; re-formatting round trips through core::fmt '
-      'for Coord, Color, Cell, CastlingRights (and UCI in the thorough tier). FEN: two structured families in the thorough tier.',
-      TB + 'S4 (core::str::from_utf8 replaced by the reference UTF-8 automaton). NOT decided: FEN and move-list text beyond the two families, '
-      'SAN/FEN re-formatting (core::fmt), longer strings.', 'DESIGN.md C12')
+      'SAN 5 quick / 7 thorough with S4+S7), with the accepted set characterised byte-wise for all but SAN; re-formatting round trips through core::fmt '
+      'for Coord, Color, Cell, CastlingRights (and UCI in the thorough tier).',
+      TB + 'S4 / S7 (core::str::from_utf8 and str::is_ascii replaced by byte-level reference definitions). NOT decided: FEN records and '
+      'move-list text (the FEN parser harnesses do not fit), SAN/FEN re-formatting (core::fmt), longer strings.', 'DESIGN.md C12')
 claim('C13', 'BaseMoveChain<ArrRepeat> (array-backed exact repetition table): from each stated pre-state (6 start positions x stated concrete prefixes), '
       'ONE symbolic operation (push of any move tuple, push of any UCI value, pop, set/clear/reset/auto outcome), optionally followed by a pop, is '
       'compared with the plain-board model in every field (raw, hash, sets, move list, start, outcome, repetition table); chain equality for two chains '
